@@ -6,6 +6,7 @@ import (
 	"encoding/json"
 	"fmt"
 	"math/big"
+	"sort"
 	"time"
 
 	sdkmath "cosmossdk.io/math"
@@ -74,10 +75,20 @@ type Options struct {
 	MaxGas int64
 	// SkipFirstBlock: leave the chain right after InitChain (no block 1 commit).
 	SkipFirstBlock bool
+	// Contracts are installed in genesis (auth EthAccount with code hash + evm genesis account).
+	Contracts []GenesisContract
 	// UnbondingTime of the staking module (default 3 days).
 	UnbondingTime time.Duration
 	// CommunityTax (default 0 so the community pool has no other inflow).
 	CommunityTax *sdk.Dec
+}
+
+// GenesisContract is a contract present from genesis on.
+type GenesisContract struct {
+	Addr    common.Address
+	Code    []byte
+	Storage map[uint64]uint64
+	Balance int64
 }
 
 // World is a running fixture chain positioned inside an open block (after BeginBlock).
@@ -172,6 +183,29 @@ func New(o Options) *World {
 		balances = append(balances, banktypes.Balance{Address: a.String(), Coins: coins})
 		total = total.Add(coins...)
 	}
+	var evmAccs []evmtypes.GenesisAccount
+	for i, c := range o.Contracts {
+		a := sdk.AccAddress(c.Addr.Bytes())
+		genAccs = append(genAccs, &haqqtypes.EthAccount{
+			BaseAccount: authtypes.NewBaseAccount(a, nil, uint64(len(w.Addrs)+i), 1),
+			CodeHash:    crypto.Keccak256Hash(c.Code).String(),
+		})
+		ga := evmtypes.GenesisAccount{Address: c.Addr.Hex(), Code: common.Bytes2Hex(c.Code)}
+		var ks []uint64
+		for k := range c.Storage {
+			ks = append(ks, k)
+		}
+		sort.Slice(ks, func(i, j int) bool { return ks[i] < ks[j] })
+		for _, k := range ks {
+			ga.Storage = append(ga.Storage, evmtypes.State{Key: common.BigToHash(new(big.Int).SetUint64(k)).Hex(), Value: common.BigToHash(new(big.Int).SetUint64(c.Storage[k])).Hex()})
+		}
+		evmAccs = append(evmAccs, ga)
+		if c.Balance > 0 {
+			coins := sdk.NewCoins(sdk.NewInt64Coin(Denom, c.Balance))
+			balances = append(balances, banktypes.Balance{Address: a.String(), Coins: coins})
+			total = total.Add(coins...)
+		}
+	}
 	gs[authtypes.ModuleName] = cdc.MustMarshalJSON(authtypes.NewGenesisState(authtypes.DefaultParams(), genAccs))
 
 	// staking
@@ -246,6 +280,7 @@ func New(o Options) *World {
 
 	// evm: default params (denom aISLM), no accounts
 	eg := evmtypes.DefaultGenesisState()
+	eg.Accounts = evmAccs
 	gs[evmtypes.ModuleName] = cdc.MustMarshalJSON(eg)
 
 	// distribution: community tax 0 unless asked otherwise
@@ -425,3 +460,30 @@ func (w *World) VirtualBeginBlock(dt time.Duration, absent map[int]bool, evidenc
 		ByzantineValidators: evidence,
 	})
 }
+
+// Reopen simulates a node restart: a new application object is constructed on the same database
+// (LoadLatestVersion), nothing else is carried over.
+func (w *World) Reopen() {
+	w.App = NewApp(w.DB, w.ChainID)
+}
+
+// ReopenOnCopy restarts the node on a key-by-key copy of the database.
+func (w *World) ReopenOnCopy() {
+	ndb := dbm.NewMemDB()
+	it, err := w.DB.Iterator(nil, nil)
+	if err != nil {
+		panic(err)
+	}
+	for ; it.Valid(); it.Next() {
+		if err := ndb.Set(append([]byte{}, it.Key()...), append([]byte{}, it.Value()...)); err != nil {
+			panic(err)
+		}
+	}
+	it.Close()
+	w.DB = ndb
+	w.App = NewApp(ndb, w.ChainID)
+}
+
+// Peek returns the world itself; it exists so that call sites that only count what a builder
+// would produce are recognisable.
+func (w *World) Peek() *World { return w }
